@@ -430,3 +430,159 @@ func (g *Gen) constNonNilGlobal(name string) bool {
 	res = n == 1
 	return res
 }
+
+// constMapEntry is one key/value pair of a package-level map literal.
+type constMapEntry struct {
+	Key ssa.Value
+	Val ssa.Value            // constant value, or nil when Fields is set
+	Fields map[int]ssa.Value // struct-literal value: field index -> constant
+	StructT types.Type
+}
+
+// constGlobalMaps finds package-level map variables that are never assigned outside init nor written
+// through (the shared-state analysis), and whose initialiser is a map literal of constants; it returns their
+// contents as read off the SSA of the package initialiser.
+func (g *Gen) constGlobalMaps() map[*ssa.Global][]constMapEntry {
+	if g.constMaps != nil {
+		return g.constMaps
+	}
+	g.constMaps = map[*ssa.Global][]constMapEntry{}
+	if globalUsesCache == nil {
+		globalUsesCache = g.GlobalUses()
+	}
+	for _, sp := range g.SSAPkgs {
+		if !inRepoPkg(sp) {
+			continue
+		}
+		initFn := sp.Func("init")
+		if initFn == nil {
+			continue
+		}
+		for _, b := range initFn.Blocks {
+			for _, in := range b.Instrs {
+				st, ok := in.(*ssa.Store)
+				if !ok {
+					continue
+				}
+				gl, ok := st.Addr.(*ssa.Global)
+				if !ok {
+					continue
+				}
+				mm, ok := st.Val.(*ssa.MakeMap)
+				if !ok {
+					continue
+				}
+				u := globalUsesCache[gl.Pkg.Pkg.Name()+"."+gl.Name()]
+				if u != nil && (len(u.Stores) > 0 || len(u.Mutators) > 0) {
+					continue
+				}
+				var entries []constMapEntry
+				good := true
+				for _, ref := range *mm.Referrers() {
+					switch r := ref.(type) {
+					case *ssa.MapUpdate:
+						if r.Map != ssa.Value(mm) {
+							good = false
+							continue
+						}
+						if _, isC := r.Key.(*ssa.Const); !isC {
+							good = false
+							continue
+						}
+						e := constMapEntry{Key: r.Key}
+						switch v := r.Value.(type) {
+						case *ssa.Const:
+							e.Val = v
+						case *ssa.UnOp:
+							al, isAl := v.X.(*ssa.Alloc)
+							if !isAl {
+								good = false
+								continue
+							}
+							e.Fields = map[int]ssa.Value{}
+							e.StructT = al.Type().Underlying().(*types.Pointer).Elem()
+							for _, ar := range *al.Referrers() {
+								fa, ok := ar.(*ssa.FieldAddr)
+								if !ok {
+									continue
+								}
+								for _, fr := range *fa.Referrers() {
+									if s2, ok := fr.(*ssa.Store); ok && s2.Addr == ssa.Value(fa) {
+										if _, isC := s2.Val.(*ssa.Const); !isC {
+											good = false
+										}
+										e.Fields[fa.Field] = s2.Val
+									}
+								}
+							}
+						default:
+							good = false
+						}
+						entries = append(entries, e)
+					case *ssa.Store:
+						// the assignment to the global itself
+					case *ssa.DebugRef:
+					default:
+						good = false
+					}
+				}
+				if good {
+					g.constMaps[gl] = entries
+				}
+			}
+		}
+	}
+	return g.constMaps
+}
+
+// assumeConstMaps states, for the entry state of a function, the contents of the constant package-level maps.
+func (c *FnCtx) assumeConstMaps(st *State) {
+	g := c.g
+	fr := &frame{c: c}
+	for gl, entries := range g.constGlobalMaps() {
+		func() {
+			defer func() {
+				if r := recover(); r != nil {
+					if _, ok := r.(ErrSubset); !ok {
+						panic(r)
+					}
+				}
+			}()
+			mt := gl.Type().Underlying().(*types.Pointer).Elem()
+			mtt := mt.Underlying().(*types.Map)
+			gh := g.TE.GlobalHeap(gl.Pkg.Pkg.Name(), gl.Name(), mt)
+			dom, val, ks, _ := g.TE.MapHeaps(mt)
+			gv := st.Heap(gh)
+			var keys []string
+			for _, e := range entries {
+				k := fr.constVal(e.Key.(*ssa.Const)).T
+				keys = append(keys, fmt.Sprintf("(= k %s)", k))
+				var v string
+				if e.Val != nil {
+					v = fr.constVal(e.Val.(*ssa.Const)).T
+				} else {
+					stt := e.StructT.Underlying().(*types.Struct)
+					sn := g.TE.SortOf(e.StructT)
+					var parts []string
+					for i := 0; i < stt.NumFields(); i++ {
+						if fv, ok := e.Fields[i]; ok {
+							parts = append(parts, fr.constVal(fv.(*ssa.Const)).T)
+						} else {
+							parts = append(parts, g.TE.Zero(stt.Field(i).Type()))
+						}
+					}
+					v = fmt.Sprintf("(mk_%s %s)", sn, strings.Join(parts, " "))
+				}
+				c.emit(fmt.Sprintf("(assert (= (select (select %s %s) %s) %s))", st.Heap(val), gv, k, v))
+			}
+			inDom := "false"
+			if len(keys) > 0 {
+				inDom = "(or " + strings.Join(keys, " ") + ")"
+			}
+			c.emit(fmt.Sprintf("(assert (not (= %s nil)))", gv))
+			c.emit(fmt.Sprintf("(assert (forall ((k %s)) (! (= (select (select %s %s) k) %s) :pattern ((select (select %s %s) k)))))", ks, st.Heap(dom), gv, inDom, st.Heap(dom), gv))
+			_ = mtt
+			c.assumed[fmt.Sprintf("contents of the constant package-level map %s.%s are read off its initialiser (it is never assigned or written through: checked by the shared-state analysis)", gl.Pkg.Pkg.Name(), gl.Name())] = true
+		}()
+	}
+}
